@@ -28,6 +28,10 @@ static const MUX tgts[] = {
 #define ALT_SUB 0
 
 static uint8_t snap_ro, snap_str[OD_STR_SIZE + 4], snap_dom[OD_DOM_SIZE + 4];
+#if CO_SSDO_N > 1
+static CO_SDO  snap_s1;
+static uint8_t snap_buf1[SDO_BB];
+#endif
 static uint8_t snap_b, snap_wo; static uint16_t snap_w; static uint32_t snap_l, snap_nl;
 
 void harness(void)
@@ -42,6 +46,7 @@ void harness(void)
     uint8_t  cmd;
     uint32_t txmin, txmax;
     uint8_t  wr_ok;
+    uint8_t  pre_tbit;
 
     env_reset();
     od_defaults();
@@ -75,6 +80,20 @@ void harness(void)
     for (i = 0; i < OD_STR_SIZE + 4; i++) { snap_str[i] = app.str[i]; }
     for (i = 0; i < OD_DOM_SIZE + 4; i++) { snap_dom[i] = app.dom[i]; }
 
+    pre_tbit = s->Seg.TBit;
+#if CO_SSDO_N > 1
+    /* second server: arbitrary state (any phase) open on the alternative object */
+    {
+        CO_SDO *s1 = &node.Sdo[1];
+        uint8_t ph1 = (uint8_t)ND_RANGE(0, 4);
+        sdo_arbitrary_state(s1, 1, 1, alt);
+        if (ph1 == 0) { s1->Obj = 0; }
+        s1->Blk.State = (ph1 <= 1) ? BLK_IDLE : (ph1 == 2) ? BLK_DOWNLOAD : (ph1 == 3) ? BLK_DNWAIT : BLK_UPLOAD;
+        ASSUME(sdo_inv(s1, 1, tgt, alt));
+        snap_s1 = *s1;
+        for (i = 0; i < SDO_BB; i++) { snap_buf1[i] = od_sdo_buf[1][i]; }
+    }
+#endif
     /* ---- one arbitrary frame ---- */
     ND_BUF(data, 8);
     dlc  = (uint8_t)ND_RANGE(0, 8);
@@ -137,7 +156,88 @@ void harness(void)
               "upload and abort requests do not modify objects");
     }
     CHECK(od_dom.Offset <= od_dom.Size, "domain offset within the domain");
+#if CO_SSDO_N > 1
+    {
+        CO_SDO *s1 = &node.Sdo[1];
+        CHECK(s1->Obj == snap_s1.Obj && s1->Blk.State == snap_s1.Blk.State && s1->Buf.Cur == snap_s1.Buf.Cur && s1->Buf.Num == snap_s1.Buf.Num &&
+              s1->Seg.Num == snap_s1.Seg.Num && s1->Seg.Size == snap_s1.Seg.Size && s1->Seg.TBit == snap_s1.Seg.TBit &&
+              s1->Blk.Len == snap_s1.Blk.Len && s1->Blk.Size == snap_s1.Blk.Size && s1->Blk.SegCnt == snap_s1.Blk.SegCnt &&
+              s1->Blk.SegNum == snap_s1.Blk.SegNum && s1->Blk.SegOk == snap_s1.Blk.SegOk && s1->Idx == snap_s1.Idx && s1->Sub == snap_s1.Sub,
+              "traffic on server 0 leaves the transfer state of server 1 untouched");
+        for (i = 0; i < SDO_BB; i++) { CHECK(od_sdo_buf[1][i] == snap_buf1[i], "traffic on server 0 leaves the buffer slice of server 1 untouched"); }
+    }
+#endif
 
+#if PH == 0
+    /* ---- C04: verdict of a request arriving at an idle server ------------ */
+    {
+        const CO_IF_FRM *r = &env_tx[0];
+        uint32_t code = (uint32_t)r->Data[4] | ((uint32_t)r->Data[5] << 8) | ((uint32_t)r->Data[6] << 16) | ((uint32_t)r->Data[7] << 24);
+        uint8_t  is_abort = (env_tx_n == 1) && (r->Data[0] == 0x80);
+        uint8_t  init_dl  = ((cmd & 0xF2) == 0x22) || ((cmd & 0xF2) == 0x20) || ((cmd & 0xF9) == 0xC0);
+        uint8_t  init_ul  = (cmd == 0x40) || ((cmd & 0xE3) == 0xA0);
+        uint8_t  exists   = (TGT != 10) && (TGT != 11);
+        uint8_t  writable = exists && (TGT != 4) && (TGT != 7) && (TGT != 12);
+        uint8_t  readable = exists && (TGT != 5);
+        uint8_t  unchanged = (app.b == snap_b) && (app.w == snap_w) && (app.l == snap_l) && (app.nl == snap_nl) && (app.wo == snap_wo);
+        uint32_t osz = (TGT == 0 || TGT == 4 || TGT == 5) ? 1 : (TGT == 1 || TGT == 8) ? 2 : (TGT == 2 || TGT == 3 || TGT == 9 || TGT == 12) ? 4 : 0;
+        for (i = 0; i < OD_DOM_SIZE; i++) { if (app.dom[i] != snap_dom[i]) { unchanged = 0; } }
+        if (cmd != 0x80) {
+            if (init_dl || init_ul) {
+                /* every response to an initiate names the requested object */
+                CHECK(r->Data[1] == data[1] && r->Data[2] == data[2] && r->Data[3] == data[3], "response to an initiate request carries the requested multiplexer");
+                if (TGT == 10) { CHECK(is_abort && code == 0x06020000, "unknown index refused with 0602 0000h"); }
+                if (TGT == 11) { CHECK(is_abort && code == 0x06090011, "unknown sub-index refused with 0609 0011h"); }
+                if (init_dl && exists && !writable) { CHECK(is_abort && code == 0x06010002, "write to a read-only object refused with 0601 0002h"); }
+                if (init_ul && exists && !readable) { CHECK(is_abort && code == 0x06010001, "read of a write-only object refused with 0601 0001h"); }
+            }
+            if (((cmd & 0xF2) == 0x22) && writable && (osz != 0) && ((cmd & 1) != 0)) {
+                uint32_t width = 4u - ((cmd >> 2) & 3u);
+                if (width > osz) { CHECK(is_abort && code == 0x06070012, "expedited data longer than the object refused with 0607 0012h"); }
+                if (width < osz) { CHECK(is_abort && code == 0x06070013, "expedited data shorter than the object refused with 0607 0013h"); }
+                if ((width == osz) && (TGT <= 5)) { CHECK(!is_abort && r->Data[0] == 0x60, "matching expedited download confirmed"); }
+            }
+            if (((cmd & 0xF2) == 0x20) && writable && (osz != 0) && ((cmd & 1) != 0)) {
+                uint32_t width = (uint32_t)data[4] | ((uint32_t)data[5] << 8) | ((uint32_t)data[6] << 16) | ((uint32_t)data[7] << 24);
+                if (width > osz) { CHECK(is_abort && code == 0x06070012, "announced size above the object size refused with 0607 0012h"); }
+                if ((width < osz) && (width != 0)) { CHECK(is_abort && code == 0x06070013, "announced size below the object size refused with 0607 0013h"); }
+            }
+            if ((cmd == 0x40) && readable && (osz != 0) && (TGT != 8) && (TGT != 9)) {
+                uint32_t exp = (TGT == 0) ? snap_b : (TGT == 1) ? snap_w : (TGT == 2) ? snap_l : (TGT == 3) ? (snap_nl + OD_NODEID) :
+                               (TGT == 4) ? snap_ro : 0x11111111u;
+                uint32_t m = (osz == 4) ? 0xFFFFFFFFu : ((1u << (8 * osz)) - 1u);
+                CHECK(!is_abort && r->Data[0] == (uint8_t)(0x43 | ((4 - osz) << 2)), "expedited upload answered with the object size");
+                CHECK((code & m) == (exp & m), "expedited upload returns the value of the named object");
+            }
+            if (!(init_dl || init_ul)) {
+                /* segment / start / ack / end / unknown commands without a transfer */
+                CHECK(is_abort && code == 0x05040001, "command without an open transfer refused with 0504 0001h");
+            }
+            if (is_abort) {
+                CHECK(unchanged, "a refused request changes nothing");
+                CHECK(s->Obj == 0 && s->Blk.State == BLK_IDLE, "server idle after refusing a request");
+            }
+        }
+        COVER(is_abort && code == 0x06070012, "length too high");
+        COVER(is_abort && code == 0x06070013, "length too low");
+    }
+#elif PH == 1
+    /* ---- C04: toggle error inside an open segmented transfer --------------- */
+    {
+        const CO_IF_FRM *r = &env_tx[0];
+        uint32_t code = (uint32_t)r->Data[4] | ((uint32_t)r->Data[5] << 8) | ((uint32_t)r->Data[6] << 16) | ((uint32_t)r->Data[7] << 24);
+        uint8_t  is_abort = (env_tx_n == 1) && (r->Data[0] == 0x80);
+        uint8_t  wrn = (TGT != 4) && (TGT != 7) && (TGT != 12);
+        uint8_t  rdn = (TGT != 5);
+        if (((cmd & 0xE0) == 0x00) && wrn && (((cmd >> 4) & 1) != pre_tbit)) {
+            CHECK(is_abort && code == 0x05030000, "download segment with the wrong toggle bit refused with 0503 0000h");
+        }
+        if (((cmd & 0xEF) == 0x60) && rdn && (((cmd >> 4) & 1) != pre_tbit)) {
+            CHECK(is_abort && code == 0x05030000, "upload segment request with the wrong toggle bit refused with 0503 0000h");
+        }
+        COVER(is_abort && code == 0x05030000, "toggle error");
+    }
+#endif
     COVER(env_tx_n == 1 && env_tx[0].Data[0] == 0x80, "abort response");
     COVER(env_tx_n == 1 && env_tx[0].Data[0] != 0x80, "positive response");
     COVER(env_tx_n == 0, "silent");
